@@ -11,6 +11,7 @@ import (
 	"sort"
 	"strconv"
 	"strings"
+	"time"
 
 	"golang.org/x/tools/go/ssa"
 )
@@ -106,6 +107,7 @@ type Exec struct {
 	instrs    int64
 	bvInts    bool
 	maxViol   int
+	deadline  time.Time
 	xsample   int // cross-check every n-th decided obligation (0 = off)
 	xcount    int
 	xchecked  int
